@@ -1204,7 +1204,7 @@ func (ndb *nodeDB) decrVersionReaders(version int64) {
 }
 
 func isReferenceRoot(bz []byte) (bool, int) {
-	if bz[0] == nodeKeyFormat.Prefix()[0] {
+	if len(bz) > 0 && bz[0] == nodeKeyFormat.Prefix()[0] {
 		return true, len(bz)
 	}
 	return false, 0
@@ -1385,6 +1385,9 @@ func (ndb *nodeDB) traverseNodes(fn func(node *Node) error) error {
 	nodes := []*Node{}
 
 	if err := ndb.traversePrefix(nodeKeyFormat.Prefix(), func(key, value []byte) error {
+		if len(value) == 0 { // the root record of an empty version
+			return nil
+		}
 		if isRef, _ := isReferenceRoot(value); isRef {
 			return nil
 		}
